@@ -13,6 +13,8 @@ RULE = ('files with 1..4 dimensions of length 1..5, 1..4 variables of rank 0..4 
         'chosen dimension into 1..5 consecutive pieces (length-1 and occasionally empty pieces) made with sliceDimensions, stacked, compared '
         'with the original, and the stacked file sliced at every extent compared with the piece; "multi": 2..5 independently built files of '
         'differing lengths along the stack dimension (any axis position) stacked in order, `other` given as list or as single file; '
+        '"mfopen": the split pieces saved as netCDF part<i>.nc (no zero padding, sometimes >= 10 pieces) and opened with pncmfopen (with and without '
+        'format=) or netcdf.open_mfdataset in shuffled / reversed / rotated / split argument order, compared with the model stack of the same list; '
         '"legacy": stack_files on the same inputs; malformed: unknown stack dimension, another dimension disagreeing. '
         'Non-trivial = the call succeeded on >= 2 non-empty files and some variable carries the stack dimension.')
 TRUSTED = ['numpy.ma.concatenate along an axis is MODELLED (Model/Stack.v concat_at: blocks of the inputs in list order under every outer index), '
@@ -29,8 +31,8 @@ LEVEL_TEXT = ('Theorems (Props/C04.v, all closed under the global context) about
               'identity (C04_stack_single), stacking is associative (C04_stack_assoc), and the piece is the C02 orthogonal slice with a unit-stride '
               'selector on that axis (C04_piece_is_slice_axis0_partial for the leading axis). Tie H: whole-file model (impl_stack, split_file) vs '
               'library on every generated case incl. errors; the laws are also checked directly on the library output (checkS) and by a numpy oracle.')
-LEVEL_NOTE = ('Trusted: Coq kernel + vm_compute; harness; numpy concatenate semantics as modelled. open_mfdataset / pncmfopen (need files on disk and '
-              'a reader) are not driven; they delegate to stack by inspection only.')
+LEVEL_NOTE = ('Trusted: Coq kernel + vm_compute; harness; numpy concatenate semantics as modelled; netCDF4 save/reopen of the pieces in the mfopen cases '
+              '(round trip of int32 data, masks via _FillValue). open_mfdataset(stackdim=None) always raises on the unchanged tree (for/else) and is not exercised.')
 
 
 # ----------------------------------------------------------------------------- generation
@@ -57,6 +59,8 @@ def gen(rng, n, tier):
             else:
                 case['bad'] = [rng.randrange(1, nf), rng.choice(others), rng.choice([1, 2])]
             out.append(case)
+        elif r < 0.20:
+            out.append(_gen_mfopen(rng, dims, vs, sd))
         elif r < 0.50:
             nlen = [d[1] for d in dims if d[0] == sd][0]
             if rng.random() < 0.5:
@@ -85,6 +89,42 @@ def gen(rng, n, tier):
                 case['kind'] = 'legacy'
             out.append(case)
     return out
+
+
+def _gen_mfopen(rng, dims, vs, sd):
+    """split pieces saved as netCDF part<i>.nc (no zero padding) and opened with the multi-file helpers in an
+    argument order that is mostly NOT the sorted order of the paths"""
+    many = rng.random() < 0.4
+    nlen = rng.randint(10, 12) if many else rng.randint(2, 6)
+    # keep the other dimensions small so that 10+ pieces stay cheap
+    dims = [[d[0], nlen if d[0] == sd else (min(d[1], 2) if many else d[1]), d[2]] for d in dims]
+    lend = dict((d[0], d[1]) for d in dims)
+    vs = [dict(v) for v in vs if len(v['dims']) > 0 or rng.random() < 0.5]
+    if not any(sd in v['dims'] for v in vs):
+        vs.append(dict(name='S', dims=[sd], masked=False, attrs={'units': 'u_S'}))
+    for v in vs:
+        size = 1
+        for dn in v['dims']:
+            size *= lend[dn]
+        if v.get('masked'):
+            v['mask'] = [1 if rng.random() < 0.25 else 0 for _ in range(size)]
+    if many:
+        k = rng.randint(10, nlen)
+    else:
+        k = rng.randint(2, nlen)
+    cuts = sorted(rng.sample(range(1, nlen), k - 1))
+    lens = [b - a for a, b in zip([0] + cuts, cuts + [nlen])]
+    how = rng.choice(['shuffled', 'shuffled', 'reversed', 'argument', 'rotated'])
+    order = list(range(k))
+    if how == 'shuffled':
+        rng.shuffle(order)
+    elif how == 'reversed':
+        order.reverse()
+    elif how == 'rotated':
+        j = rng.randrange(1, k)
+        order = order[j:] + order[:j]
+    via = rng.choice(['pncmfopen', 'pncmfopen', 'pncmfopen-fmt', 'open_mfdataset'])
+    return dict(kind='mfopen-%s%s' % (how, '-10plus' if k >= 10 else ''), dims=dims, vars=vs, sd=sd, lens=lens, order=order, via=via)
 
 
 def _file_case(case, fi):
@@ -146,8 +186,49 @@ def _build(fc):
     return f
 
 
+def _impl_mfopen(case):
+    import os, shutil, tempfile
+    sd = case['sd']
+    orig = _build(dict(dims=case['dims'], vars=case['vars']))
+    ext, c0 = [], 0
+    for l in case['lens']:
+        ext.append((c0, c0 + l))
+        c0 += l
+    pieces = [orig.sliceDimensions(**{sd: slice(a, b)}) for a, b in ext]
+    tmp = tempfile.mkdtemp(dir=os.path.join(C.VERIF, '.work'))
+    try:
+        paths = []
+        for i, p in enumerate(pieces):
+            path = os.path.join(tmp, 'part%d.nc' % i)       # part10 sorts before part2
+            o = p.save(path, format='NETCDF4_CLASSIC', verbose=0)
+            o.close()
+            paths.append(path)
+        order = case['order']
+        args = [paths[i] for i in order]
+        if case['via'] == 'pncmfopen':
+            from PseudoNetCDF._getreader import pncmfopen
+            st = pncmfopen(args, stackdim=sd)
+        elif case['via'] == 'pncmfopen-fmt':
+            from PseudoNetCDF._getreader import pncmfopen
+            st = pncmfopen(args, stackdim=sd, format='netcdf')
+        else:
+            from PseudoNetCDF.core._files import netcdf
+            st = netcdf.open_mfdataset(*args, stackdim=sd)
+        files = [S2._observe(pieces[i]) for i in order]
+        oext, c0 = [], 0
+        for i in order:
+            oext.append((c0, c0 + case['lens'][i]))
+            c0 += case['lens'][i]
+        back = [S2._observe(st.sliceDimensions(**{sd: slice(a, b)})) for a, b in oext]
+        return dict(files=files, stacked=S2._observe(st), back=back)
+    finally:
+        shutil.rmtree(tmp, ignore_errors=True)
+
+
 def impl(case):
     sd = case['sd']
+    if case['kind'].startswith('mfopen'):
+        return _impl_mfopen(case)
     if case['kind'].startswith('split'):
         orig = _build(dict(dims=case['dims'], vars=case['vars']))
         ext, c0 = [], 0
@@ -217,7 +298,7 @@ def coq_term(case, obs):
             back = '[' + '; '.join(_ovars(ids, b) for b in obs['back']) + ']'
         except KeyError:
             return None
-    if case['kind'].startswith('split'):
+    if case['kind'].startswith('split') or (case['kind'].startswith('mfopen') and case['order'] == sorted(case['order'])):
         fc = dict(dims=case['dims'], vars=case['vars'])
         orig = 'Some ((%s, %s), %s)' % (C.natlist([d[1] for d in case['dims']]), _ivars(ids, fc), C.natlist(case['lens']))
     else:
@@ -300,6 +381,14 @@ def shrink(case):
     if len(vs) > 1:
         for j in range(len(vs)):
             yield dict(case, vars=vs[:j] + vs[j + 1:])
+    if case['kind'].startswith('mfopen'):
+        k = len(case['lens'])
+        if k > 2:       # merge two neighbouring pieces, keep the relative argument order
+            for j in range(k - 1):
+                lens = case['lens'][:j] + [case['lens'][j] + case['lens'][j + 1]] + case['lens'][j + 2:]
+                order = [i if i <= j else i - 1 for i in case['order'] if i != j + 1]
+                yield dict(case, lens=lens, order=order)
+        return
     if not case['kind'].startswith('split') and len(case['lens']) > 2 and 'bad' not in case:
         for j in range(len(case['lens'])):
             yield dict(case, lens=case['lens'][:j] + case['lens'][j + 1:], seeds=case['seeds'][:j] + case['seeds'][j + 1:])
